@@ -10,6 +10,8 @@ import effects
 def run(ctx):
     p, r = ctx.p, ctx.r
     empty_hunks(ctx)
+    hunk_header_pattern(ctx)
+    total_scan(ctx)
     A = r.rule("R19-a", "run_rustfmt returns Ok only on paths that decided ExitStatus::success() = true (or spawned nothing); "
                         "run propagates run_rustfmt's result; main reaches process::exit(1) on the Err edge of run")
     r.rule("R19-b", "files.is_empty() ∨ ranges.is_empty() is decided false on every path that spawns rustfmt; the empty edge "
@@ -134,3 +136,99 @@ def empty_hunks(ctx):
         r.violation(C, "scan_diff: hunks with an empty post-image are not skipped",
                     "a `+N,0` hunk (pure deletion) still registers its file and a line range: rustfmt is asked to format "
                     "lines the patch did not add", ["%s:%d" % (sd.file, sd.line)])
+
+
+def hunk_header_pattern(ctx):
+    """R19-d: the hunk-header pattern captures the post-image range of the header, whatever follows the closing @@"""
+    import re
+    p, r = ctx.p, ctx.r
+    D = r.rule("R19-d", "the regular expression scan_diff uses for `@@` lines, evaluated on a frozen family of well-formed hunk "
+                        "headers (with / without counts, with trailing section text that itself contains `+<digits>`), captures "
+                        "the post-image start and count written before the closing `@@` — the constant is decided as data, by the "
+                        "regex engine, not by running rustfmt")
+    sd = p.named("scan_diff", crate="rustfmt_format_diff")
+    if sd is None:
+        r.undecidable(D, "scan_diff not found")
+        return
+    pats = []
+    for c in sd.calls():
+        if c.name.endswith("Regex::new") and c.args and c.args[0][0] != "k":
+            for k in sd.derived_from(c.args[0][1][0])["consts"]:
+                if isinstance(k[2], dict) and isinstance(k[2].get("str"), str) and "@@" in k[2]["str"]:
+                    pats.append((k[2]["str"], c))
+    if not pats:
+        r.note("R19-d: scan_diff has no regex literal for `@@` lines; the rule does not apply to a hand-written recogniser")
+        r.instance(D, "hunk-header pattern", "n/a", "%s:%d" % (sd.file, sd.line), "no regex literal", nontrivial=False)
+        r.rules[D]["floor"] = 0
+        return
+    fam = []
+    for (a, b) in (("10", "5"), ("1", None), ("148", "11")):
+        for (c_, d_) in (("10", "6"), ("7", None), ("160", "0"), ("3", "12")):
+            for tail in ("", " fn foo()", " let y = x +3;", " a +7,9 b", " +12", " @@ +99,1 @@"):
+                pre = "-%s%s" % (a, "," + b if b else "")
+                post = "+%s%s" % (c_, "," + d_ if d_ else "")
+                fam.append(("@@ %s %s @@%s" % (pre, post, tail), c_, d_))
+    for pat, call in pats:
+        try:
+            rx = re.compile(pat)
+        except re.error as e:
+            r.undecidable(D, "hunk-header pattern %r cannot be evaluated (%s)" % (pat, e))
+            continue
+        bad = []
+        for line, want_start, want_count in fam:
+            m = rx.search(line)
+            got = None
+            if m:
+                nums = [g for g in m.groups() if g is not None and g.isdigit()]
+                got = (nums[0] if nums else None, nums[-1] if len(nums) > 1 else None)
+            if got != (want_start, want_count):
+                bad.append((line, got))
+        r.cells(D, len(fam))
+        r.instance(D, "hunk-header pattern %s" % pat, "ok" if not bad else "violation", call.loc(), "%d headers evaluated" % len(fam))
+        if bad:
+            r.violation(D, "hunk-header pattern reads the range from the wrong place",
+                        "pattern %r on `%s` yields start/count %s: the range rustfmt is asked to format is not the one the hunk "
+                        "header announces (%d of %d header shapes)" % (pat, bad[0][0], bad[0][1], len(bad), len(fam)), [call.loc()])
+
+
+def total_scan(ctx):
+    """R19-e: scan_diff turns every line into a range, a skip or an error — never a panic"""
+    p, r = ctx.p, ctx.r
+    E = r.rule("R19-e", "scan_diff: no Result::unwrap / expect on a value that depends on the patch text (str::parse of captured "
+                        "digits, the lines of the input), and no overflow-checked `+` / `-` on two numbers parsed from it: a "
+                        "malformed or hostile patch must end in a skipped header or an error, not in a panic (nothing is formatted)")
+    sd = p.named("scan_diff", crate="rustfmt_format_diff")
+    if sd is None:
+        r.undecidable(E, "scan_diff not found")
+        return
+    n = 0
+    for c in sd.calls():
+        if not (c.name.endswith("Result::<T, E>::unwrap") or c.name.endswith("Result::<T, E>::expect")) or not c.args or c.args[0][0] == "k":
+            continue
+        n += 1
+        d = sd.derived_from(c.args[0][1][0])
+        src = [x for x in d["calls"] if x.name.endswith("str>::parse") or x.name.endswith("::parse")
+               or x.name.endswith("Lines<B> as std::iter::Iterator>::next")]
+        # the compile-time patterns (Regex::new of a literal) are not patch data
+        if not src:
+            r.instance(E, "unwrap at %s" % c.loc(), "ok", c.loc(), "not patch-dependent", nontrivial=False)
+            continue
+        what = short(src[0].name).rsplit("::", 2)[-1] if "parse" in src[0].name else "input line"
+        r.instance(E, "unwrap of %s" % what, "violation", c.loc())
+        r.violation(E, "scan_diff unwraps %s" % ("a parsed number" if "parse" in src[0].name else "a line of the patch"),
+                    "a value computed from the patch text is unwrapped: %s makes the tool panic instead of skipping the header or "
+                    "reporting an error" % ("a number that does not fit in the integer type" if "parse" in src[0].name
+                                            else "a line that is not valid UTF-8"), [c.loc()])
+    for bb, i, s in sd.stmts():
+        if s[0] == "=" and s[2][0] == "bin" and s[2][1] in ("AddWithOverflow", "MulWithOverflow"):
+            a, b = s[2][2], s[2][3]
+            parsed = 0
+            for op in (a, b):
+                if op[0] != "k" and any(x.name.endswith("::parse") or x.name.endswith("str>::parse") for x in sd.derived_from(op[1][0])["calls"]):
+                    parsed += 1
+            if parsed == 2:
+                r.instance(E, "checked arithmetic on parsed numbers", "violation", "%s:%d" % (sd.file, s[3]))
+                r.violation(E, "scan_diff adds two parsed numbers with overflow check",
+                            "start + count of a hunk header overflows for large values: panic in debug builds, a wrapped (bogus) "
+                            "range otherwise", ["%s:%d" % (sd.file, s[3])])
+    r.floor(E, n, 2, "Result::unwrap sites in scan_diff")
